@@ -21,12 +21,13 @@ VARIABLES l, st, failed, done
 
 NoObs == [ok |-> FALSE, tree |-> <<>>]
 Init0 == [hasFeat |-> FALSE, feat |-> [utf16 |-> FALSE, srcbase |-> FALSE, method |-> "xml"],
-          known |-> FALSE, ref |-> NoObs, refcfg |-> "none", ctrls |-> {}]
+          known |-> FALSE, ref |-> NoObs, refcfg |-> "none", ctrls |-> {}, refdigest |-> [native |-> "", dom |-> ""]]
 
 Accept(s) == [ok |-> TRUE, st |-> s, msg |-> ""]
 Reject(s, m) == [ok |-> FALSE, st |-> s, msg |-> m, cont |-> TRUE]
 
 CfgStr(c) == c.api \o "/" \o c.src \o "/" \o c.ss \o "/" \o c.out
+Dig(ev) == IF "digest" \in DOMAIN ev THEN ev.digest ELSE ""
 
 Has(s, tag) == \E c \in s.ctrls : c.tag = tag
 Ctrl(s, tag) == CHOOSE c \in s.ctrls : c.tag = tag
@@ -65,9 +66,20 @@ C05Step(s, ev) ==
                           \o " but status ok = " \o ToString(obs.ok) \o ", handler log " \o ToString(obs.wlog))
     ELSE IF ~s.known
       THEN IF Run(cfg, s.feat, obs, obs)                  \* the reference run itself must obey the chunk protocol
-           THEN Accept([s EXCEPT !.known = TRUE, !.ref = [ok |-> obs.ok, tree |-> obs.tree], !.refcfg = CfgStr(cfg)])
+           THEN Accept([s EXCEPT !.known = TRUE, !.ref = [ok |-> obs.ok, tree |-> obs.tree], !.refcfg = CfgStr(cfg),
+                        !.refdigest = [s.refdigest EXCEPT ![IF cfg.src \in DomSrcs THEN "dom" ELSE "native"] = Dig(ev)]])
            ELSE Reject(s, "class=chunks: " \o CfgStr(cfg) \o ": handler log " \o ToString(obs.wlog) \o " for " \o ToString(obs.nbytes) \o " bytes")
-    ELSE IF Run(cfg, s.feat, s.ref, obs) THEN Accept(s)
+    ELSE IF Run(cfg, s.feat, s.ref, obs)
+      THEN (* the same result tree, written by the same xsl:output: the forms that deliver BYTES (file, stream, call-back, C data buffer,  *)
+           (* command line) deliver the same bytes - the serialisation of a tree does not depend on how the stylesheet or the source    *)
+           (* was supplied either                                                                                                        *)
+           (* (per kind of source tree: a DOM-backed source hands its attributes over in another order, which is no difference of trees) *)
+           LET kind == IF cfg.src \in DomSrcs THEN "dom" ELSE "native"
+               have == s.refdigest[kind] IN
+           IF Dig(ev) = "" THEN Accept(s)
+           ELSE IF have = "" THEN Accept([s EXCEPT !.refdigest = [@ EXCEPT ![kind] = Dig(ev)]])
+           ELSE IF Dig(ev) = have THEN Accept(s)
+           ELSE Reject(s, "class=bytes: " \o CfgStr(cfg) \o " delivers the same tree as the other forms but not the same bytes as the earlier " \o kind \o "-source forms (" \o Dig(ev) \o " / " \o have \o ")")
     ELSE Reject(s, "class=" \o Why(s, cfg, obs) \o ": " \o CfgStr(cfg) \o " (ok=" \o ToString(obs.ok) \o ") disagrees with " \o s.refcfg
                    \o " (ok=" \o ToString(s.ref.ok) \o ")"
                    \o (IF cfg.out = "callback" THEN "; handler log " \o ToString(obs.wlog) \o " for " \o ToString(obs.nbytes) \o " bytes" ELSE ""))
